@@ -136,6 +136,9 @@ type LeafOpts struct {
 	NoEKU     bool
 	WithIP    bool
 	WithSCT   bool // embed a (dummy) SCT list extension
+	// BadPoison adds a malformed CT poison extension instead of a good one:
+	// 1 = not critical, 2 = critical with a value other than ASN.1 NULL.
+	BadPoison int
 }
 
 // Leaf returns a deterministic end-entity certificate for index i.
@@ -149,8 +152,8 @@ func (c *Corpus) Leaf(i int, o LeafOpts) []byte {
 	if o.NotBefore.IsZero() {
 		o.NotBefore = Epoch.AddDate(0, 0, -1)
 	}
-	key := fmt.Sprintf("%d|%s|%v|%d|%d|%v|%v|%v|%v", i, o.Issuer.Cert.Subject.CommonName, o.Precert,
-		o.NotAfter.Unix(), o.NotBefore.Unix(), o.EKU, o.NoEKU, o.WithIP, o.WithSCT)
+	key := fmt.Sprintf("%d|%s|%v|%d|%d|%v|%v|%v|%v|%d", i, o.Issuer.Cert.Subject.CommonName, o.Precert,
+		o.NotAfter.Unix(), o.NotBefore.Unix(), o.EKU, o.NoEKU, o.WithIP, o.WithSCT, o.BadPoison)
 	c.mu.Lock()
 	if b, ok := c.cache[key]; ok {
 		c.mu.Unlock()
@@ -177,6 +180,12 @@ func (c *Corpus) Leaf(i int, o LeafOpts) []byte {
 	}
 	if o.Precert {
 		t.ExtraExtensions = append(t.ExtraExtensions, pkix.Extension{Id: OIDPoison, Critical: true, Value: []byte{0x05, 0x00}})
+	}
+	switch o.BadPoison {
+	case 1:
+		t.ExtraExtensions = append(t.ExtraExtensions, pkix.Extension{Id: OIDPoison, Critical: false, Value: []byte{0x05, 0x00}})
+	case 2:
+		t.ExtraExtensions = append(t.ExtraExtensions, pkix.Extension{Id: OIDPoison, Critical: true, Value: []byte{0x04, 0x00}})
 	}
 	if o.WithSCT {
 		// SignedCertificateTimestampList: OCTET STRING wrapping a TLS list with one
